@@ -706,7 +706,9 @@ impl Engine for C14 {
                 _ => "probe.cache_year_files_are_symbolic_links",
             });
         }
-        let d0 = with_world(|w| w.fs.disk.clone());
+        let mut d0 = with_world(|w| w.fs.disk.clone());
+        // (crash states are materialised from d0 + journal: what the victim creates or writes is stamped with the victim's instant)
+        d0.clock = crate::proc::ProcEnv::new(sc.hash_seed, pd(&sc.victim.today)).now_unix();
         let victim = run_step(&boc, &sc.victim, sc.max_write, sc.hash_seed);
         st.bump("sim.processes");
         if !victim.proc.unmodelled.is_empty() {
@@ -829,7 +831,17 @@ impl Engine for C14 {
             with_world(|w| w.fs.disk = disk.clone());
             let (sig, desc) = describe_cut(&d0, &journal, &cp);
             // One recovery run: look the dates up over whatever is on the simulated disk now.
+            // The same-day recovery run starts a seeded number of seconds after the victim's instant
+            // (2 s ... a bit over an hour): what the victim left carries modification times, and "the
+            // other process is probably still at it" is a judgement code could make from them.
+            let victim_now = crate::proc::ProcEnv::new(sc.hash_seed, vtoday).now_unix();
+            let recovery_base = crate::proc::ProcEnv::new(sc.hash_seed ^ 7, vtoday).now_unix();
+            let soon = [2i64, 10, 25, 90, 4000][(sc.cut_seed % 5) as usize];
+            let same_day_shift = victim_now + soon - recovery_base;
             let mut recover = |phase: &str, today: Date, pt: bool, sig: &str, desc: &str, st: &mut Stats, reference: &mut Reference, violations: &mut Vec<Violation>, digest: &mut u64| -> FxObs {
+                if phase == "same day" && soon <= 25 {
+                    st.bump("probe.recovery_run_starts_within_seconds_of_the_crash");
+                }
                 let obs = run_fx_process(FxPlan {
                     data: boc.clone(),
                     today,
@@ -846,7 +858,7 @@ impl Engine for C14 {
                     net_faults: vec![],
                     server_today: None,
                     clock_tz: None,
-                    now_shift: 0,
+                    now_shift: if phase == "same day" { same_day_shift } else { 0 },
                     session: None,
                     fs_faults: FsFaultSpec::default(),
                     knobs: Knobs::default(),
